@@ -2,7 +2,7 @@ SPECIFICATION GSpecBoot
 CONSTANTS
   Conns = {"c1", "c2"}
   Mods = {"m1", "m2"}
-  Used = {"comlog", "info", "off"}
+  Used = {"comlog", "off"}
   ComMods = {"m1"}
   Configs <- CfgMixed
   MaxDay = 2
